@@ -179,6 +179,59 @@ theorem dropped_iff_missing (frags : List Fragment) (fuel : Nat) (o : Operation)
     | true => rfl
     | false => exact absurd (closure_complete frags fuel o mixins unpacked related h hd n hn) hnr
 
+/-- `closure_walks_through_registered` (all inputs): the walk below an inherited fragment does not stop at a fragment the
+    generator has registered already.  Whatever an inherited fragment `m` reaches — in particular a fragment `u` that was
+    UNPACKED at another position of the operation, where part of it was not followed (an inline fragment on a sibling
+    type, a spread on an overlapping interface) — is walked in full: every spread written in `u` is in the related set.
+    (A walk that marks the registered names as visited loses exactly these spreads.) -/
+theorem closure_walks_through_registered (frags : List Fragment) (fuel : Nat) (mixins unpacked related : List String)
+    (h : relatedFragments frags fuel mixins unpacked = .ok related)
+    (m : String) (hm : m ∈ mixins) (fm : Fragment) (hfm : findFragment? frags m = some fm)
+    (u : String) (hu : Reach frags fm.sel u) (fu : Fragment) (hfu : findFragment? frags u = some fu) :
+    u ∈ related ∧ ∀ x ∈ directSels fu.sel, x ∈ related := by
+  have hiff := related_iff frags fuel mixins unpacked related h
+  refine ⟨(hiff u).mpr (Or.inr (Or.inr ⟨m, hm, fm, hfm, hu⟩)), ?_⟩
+  intro x hx
+  obtain ⟨r, hr, hp⟩ := hu
+  exact (hiff x).mpr (Or.inr (Or.inr ⟨m, hm, fm, hfm, ⟨r, hr, hp.tail ⟨fu, hfu, hx⟩⟩⟩))
+
+/-- The region of finding C02-F7 is no wider than the defect: when `droppedSpread` fires, the spread whose fragment is
+    missing is written in the operation itself, or in an unpacked fragment that NO inherited fragment reaches.  A spread
+    the generator skipped where a fragment was unpacked, but which the closure walk meets below an inherited fragment,
+    is outside the trigger (the unchanged code sends its fragment). -/
+theorem dropped_only_outside_walk (frags : List Fragment) (fuel : Nat) (o : Operation) (mixins unpacked related : List String)
+    (h : relatedFragments frags fuel mixins unpacked = .ok related)
+    (hd : droppedSpread frags o unpacked related = true) :
+    (∃ x ∈ directSels o.sel, x ∉ related)
+    ∨ ∃ u ∈ unpacked, ∃ fu, findFragment? frags u = some fu ∧ (∃ x ∈ directSels fu.sel, x ∉ related)
+        ∧ ∀ m ∈ mixins, ∀ fm, findFragment? frags m = some fm → ¬ Reach frags fm.sel u := by
+  simp only [droppedSpread, Bool.not_eq_true', Bool.and_eq_false_iff] at hd
+  rcases hd with hd | hd
+  · left
+    have : ¬ ∀ x ∈ directSels o.sel, x ∈ related := by
+      intro hall
+      rw [(subset_iff _ _).mpr hall] at hd
+      cases hd
+    simp only [not_forall] at this
+    obtain ⟨x, hx, hnx⟩ := this
+    exact ⟨x, hx, hnx⟩
+  · right
+    rw [List.all_eq_false] at hd
+    obtain ⟨u, hu, hbad⟩ := hd
+    cases hf : findFragment? frags u with
+    | none => rw [hf] at hbad; simp at hbad
+    | some fu =>
+      rw [hf] at hbad
+      simp only at hbad
+      have : ¬ ∀ x ∈ directSels fu.sel, x ∈ related := by
+        intro hall
+        exact hbad ((subset_iff _ _).mpr hall)
+      simp only [not_forall] at this
+      obtain ⟨x, hx, hnx⟩ := this
+      refine ⟨u, hu, fu, hf, ⟨x, hx, hnx⟩, ?_⟩
+      intro m hm fm hfm hreach
+      exact hnx ((closure_walks_through_registered frags fuel mixins unpacked related h m hm fm hfm u hreach fu hf).2 x hx)
+
 /-! ### The sent document -/
 
 theorem addOperation_inv {env : Env} {fuel : Nat} {o : Operation} {marksIn : List Nat} {d : Doc} {st : St}
@@ -427,6 +480,50 @@ example : Valid exEnv exOp := by
   have : f ∈ exEnv.frags := List.mem_of_find?_eq_some hf
   simp only [exEnv, List.mem_cons, List.mem_singleton, List.not_mem_nil, or_false] at this
   rcases this with rfl | rfl <;> decide
+
+/-- TWO PATHS to one fragment (regression: seeded change `C02-related-fragments-visited-once`; corpus
+    `ok_two_paths_sibling_inline.json`):
+      query GetLibrary { featured { ...ItemParts } shelf { ...ShelfParts } }
+      fragment ShelfParts on Shelf { id items { ...ItemParts } }
+      fragment ItemParts on Item { id ... on Film { ...FilmParts } }      fragment FilmParts on Film { director }
+    `ItemParts` is unpacked at the `Book` position (the inline fragment on `Film` is skipped: `FilmParts` is registered
+    nowhere) and reached again below the inherited `ShelfParts`. -/
+def tpQuery : TypeDef :=
+  { name := "Query", kind := .object,
+    fields := [{ name := "shelf", type := TypeRef.nonNull (TypeRef.named "Shelf") }, { name := "featured", type := TypeRef.nonNull (TypeRef.named "Book") }] }
+def tpShelf : TypeDef :=
+  { name := "Shelf", kind := .object,
+    fields := [{ name := "id", type := TypeRef.nonNull (TypeRef.named "ID") },
+               { name := "items", type := TypeRef.nonNull (TypeRef.list (TypeRef.nonNull (TypeRef.named "Item"))) }] }
+def tpItem : TypeDef := { name := "Item", kind := .interface, fields := [{ name := "id", type := TypeRef.nonNull (TypeRef.named "ID") }] }
+def tpBook : TypeDef :=
+  { name := "Book", kind := .object, interfaces := ["Item"],
+    fields := [{ name := "id", type := TypeRef.nonNull (TypeRef.named "ID") }, { name := "title", type := TypeRef.nonNull (TypeRef.named "String") }] }
+def tpFilm : TypeDef :=
+  { name := "Film", kind := .object, interfaces := ["Item"],
+    fields := [{ name := "id", type := TypeRef.nonNull (TypeRef.named "ID") }, { name := "director", type := TypeRef.nonNull (TypeRef.named "String") }] }
+def tpSchema : Schema := Schema.mk [tpQuery, tpShelf, tpItem, tpBook, tpFilm] (some "Query") none none
+def tpShelfParts : Fragment :=
+  { name := "ShelfParts", on := "Shelf", sid := 4, sel := [.field none "id" [] 0 [], .field none "items" [] 5 [.spread "ItemParts" []]] }
+def tpItemParts : Fragment :=
+  { name := "ItemParts", on := "Item", sid := 6, sel := [.field none "id" [] 0 [], .inline (some "Film") [] 7 [.spread "FilmParts" []]] }
+def tpFilmParts : Fragment := { name := "FilmParts", on := "Film", sid := 8, sel := [.field none "director" [] 0 []] }
+def tpOp : Operation :=
+  { kind := .query, name := some "GetLibrary", sid := 1,
+    sel := [.field none "featured" [] 2 [.spread "ItemParts" []], .field none "shelf" [] 3 [.spread "ShelfParts" []]] }
+def tpEnv : Env := { schema := tpSchema, frags := [tpShelfParts, tpItemParts, tpFilmParts] }
+
+def tpSummary : Except GenErr (Doc × St) → Option (List String × List String × List String × Bool)
+  | .ok (d, st) => some (d.frags.map (·.name), st.mixins, st.unpacked, droppedSpread tpEnv.frags tpOp st.unpacked (relatedOf tpEnv 20 st))
+  | .error _ => none
+
+set_option maxRecDepth 100000 in
+/-- the generator registers `ShelfParts` (inherited) and `ItemParts` (unpacked) only; all three fragments are sent; the
+    input is OUTSIDE the `droppedSpread` trigger: the hypotheses of `closure_walks_through_registered` hold with
+    `m = ShelfParts`, `u = ItemParts ∈ unpacked`, and its conclusion is what puts `FilmParts` into the document -/
+example : tpSummary (addOperation tpEnv 20 tpOp []) = some (["FilmParts", "ItemParts", "ShelfParts"], ["ShelfParts"], ["ItemParts"], false) := by rfl
+
+example : Reach tpEnv.frags tpShelfParts.sel "ItemParts" := ⟨"ItemParts", by decide, .refl⟩
 
 /-- a safe text with quotes, `#`, `=`, backslash escapes and a blank line -/
 example : trigger "query Q {\n  a: echo(s: \"x # y = \\\"z\\\" \\\\ \\t\")\n\n}".toList = none
